@@ -15,8 +15,24 @@ def run(pid, path):
         print('replay file carries no failing input (no-failing-input-found); the failed obligation and verifier output are above')
         return 1
     inp = json.loads(m.group(1))
+    if 'kernel' in inp:
+        import subprocess
+        print('--- replay on %s: %s ---' % (common.REPO, inp.get('cmd')))
+        from . import unit_kernels
+        text, _ = unit_kernels.extract_items()
+        kc = kani.instantiate_plain('kernels')
+        open(os.path.join(kc, 'src', 'extracted.rs'), 'w').write(text)
+        binary, _ = kani.build_native(kc, 'kernels')
+        args = inp['cmd'].split()[1:]
+        r = subprocess.run([binary] + args, capture_output=True, text=True)
+        print(r.stdout + r.stderr)
+        return 1 if r.returncode == 1 else 0
     crate_name = inp.get('crate', 'lawcheck')
-    crate = kani.instantiate(crate_name)
+    if crate_name == 'aggcheck':
+        from . import unit_agg
+        crate, _, _ = unit_agg.prepare_crate()
+    else:
+        crate = kani.instantiate(crate_name)
     binary, _ = kani.build_native(crate, crate_name)
     rp = kani.native_replay(binary, inp['harness'], inp['bytes'])
     print('--- replay on %s ---' % common.REPO)
